@@ -1,3 +1,4 @@
+import AquaVerif.Proofs.WeatherBind
 import AquaVerif.Model.RunShape
 /-
 Property C14 — no look-ahead: past outputs do not depend on future weather.
@@ -81,5 +82,47 @@ theorem extension_same_state (step : σ → ω → σ × ρ) (s₀ : σ) (ws ext
 /-- non-vacuity: a concrete day function (running sum) on two series that differ from day 2 on -/
 example : (runDays (fun (s : Nat) (w : Nat) => (s + w, s + w)) 0 [1, 2, 3, 4]).take 2
         = (runDays (fun (s : Nat) (w : Nat) => (s + w, s + w)) 0 [1, 2, 9, 9]).take 2 := by decide
+
+/-! ### tie of the shapes to the code (`Model/WeatherBind.lean`, replayed by the `weather_bind` tie) -/
+
+section impl
+open Aqua.WeatherBind
+/-- **Tie of the shape to the code (work package T).**  No look-ahead through the implementation's
+own weather handling: two weather tables that agree on their first `j` rows and on both of which
+the set-up succeeds give, for every day function and initial state, the same outputs on the first
+`q` simulated days, `q` = number of in-window rows among the first `j` rows. -/
+theorem impl_no_lookahead {κ ι ι' σ ρ : Type} (step : σ → List (WCell κ) → σ × ρ) (s₀ : σ)
+    (s e : Int) (j : Nat) {t : WTable κ ι} {t' : WTable κ ι'} {c c' : List (WCell κ)}
+    (hd : sel "Date" t.cols = [c]) (hd' : sel "Date" t'.cols = [c'])
+    (hview : ∀ n ∈ required, (sel n t.cols).map (List.take j) = (sel n t'.cols).map (List.take j))
+    {m m' : List (List (WCell κ))} (hm : weatherMatrix s e t = .ok m)
+    (hm' : weatherMatrix s e t' = .ok m') :
+    (runDays step s₀ m).take (((c.take j).map (inWin s e)).count true) =
+      (runDays step s₀ m').take (((c.take j).map (inWin s e)).count true) :=
+  prefix_determined step s₀ _ m m' (weatherMatrix_prefix s e j hd hd' hview hm hm')
+
+/-- the implementation's clipping *is* `clip` (so `outside_window_irrelevant`, `clip_mem`,
+`clip_padding` speak about `read_weather_inputs`) -/
+theorem impl_clip {κ ι : Type} (s e : Int) {t : WTable κ ι} {ds : List Int}
+    (h : sel "Date" t.cols = [ds.map .date]) {m : List (List (WCell κ))}
+    (hm : weatherMatrix s e t = .ok m) :
+    ∃ cs, selectCols required t.cols = .ok cs ∧ m = (clip s e (ds.zip (rowsOf cs))).map (·.2) := by
+  rw [weatherMatrix_eq_clip s e h] at hm
+  repeat' split at hm
+  all_goals first
+    | exact ⟨_, ‹_›, (Except.ok.inj hm).symm⟩
+    | cases hm
+
+/-- rows outside the window are irrelevant to the implementation, given that the two positional
+checks (first row, last row) come out the same -/
+theorem impl_outside_window_irrelevant {κ ι ι' : Type} (s e : Int) (t : WTable κ ι) (t' : WTable κ ι')
+    (m : List Bool)
+    (hview : ∀ n ∈ required, sel n t.cols = (sel n t'.cols).map (keep m))
+    (hout : ∀ c ∈ sel "Date" t'.cols, Forall2 (fun b x => b = false → Outside s e x) m c)
+    (hfirst : dateEdgeTest false (fun d => decide (s < d)) t' = dateEdgeTest false (fun d => decide (s < d)) t)
+    (hlast : dateEdgeTest true (fun d => decide (d < e)) t' = dateEdgeTest true (fun d => decide (d < e)) t) :
+    weatherMatrix s e t' = weatherMatrix s e t :=
+  weatherMatrix_extra_rows s e t t' m hview hout hfirst hlast
+end impl
 
 end Aqua.C14
